@@ -191,7 +191,7 @@ def call(fn, state):
     state["body"], state["created"] = 0, 0
     r = {"ok": True, "exc": [], "timeout": False, "body": False, "created": 0}
     try:
-        with watchdog(2.0):
+        with watchdog(10.0):        # collecting n errors costs O(n^2) (each report carries the ones before): slow under load, not a hang
             out = fn()
             if hasattr(out, "__next__") and not isinstance(out, (list, tuple)):
                 pass
